@@ -10,7 +10,12 @@ class SPEC:
             "`rt` (encode, then the collector's data-set decoder consumes the bytes with the one-element template). "
             "Exhaustive for 8/16-bit types and booleans; boundary + random bit patterns for 32/64-bit, floats (NaN payloads, "
             "signed zeros, denormals); strings/octet arrays of every length 0..300 and 65230..65535 (thorough: more); fixed "
-            "octet arrays 1..64. Every value is a case (non-trivial = well-typed value of a supported type); distinct by hash of the op.")
+            "octet arrays 1..64. Every value is a case (non-trivial = well-typed value of a supported type); distinct by hash of the op. "
+            "`recbuf` (a whole data record through AddRecordV2 and AddRecord -> reported length + GetBuffer) against the EXACT model "
+            "Ipfix.recordBuf: records of 1..6 registry elements, well-typed; one or several ill-typed values (wrong address family, MAC of "
+            "0/3/7/8/12 bytes, fixed octet array of the wrong length) at every position, followed or not by other elements (a long MAC "
+            "value spills into its successors); user-made elements whose declared length is 0 / below / equal to / above the type's width "
+            "(up to 255, 65534, 65535), strings with a fixed declared length, octet arrays fixed and variable, unsupported types.")
     assumptions = ["values are passed as bit patterns; Go's float32/float64 carry them unchanged (no arithmetic on the path)"]
     trusted = []
 
@@ -61,8 +66,8 @@ def gen_cases(rng, tier):
         add(["ie enc %s x%s" % (ies_s[0].tok(), G.hexs(G.rand_bytes(rng, n)))], "varlen-too-long", False)
         add(["ie enc %s x%s" % (ies_o[0].tok(), G.hexs(G.rand_bytes(rng, n)))], "varlen-too-long", False)
     # fixed-length octet arrays (user-registered / unknown elements kept by the collector)
-    for n in range(1, 65):
-        ie = G.IE(55555, 300 + n, 0, n, "fixedOctets%d" % n)
+    for n in list(range(1, 65)) + [254, 255, 256, 257, 300, 1000, 65534]:    # 255.. : the value-size boundary must not leak into fixed lengths
+        ie = G.IE(55555, 300 + n % 1000, 0, n, "fixedOctets%d" % n)
         add(["ie rt %s x%s -" % (ie.tok(), G.hexs(G.rand_bytes(rng, n)))], "octets-fixed")
     # addresses
     nadr = 2000 if tier == "quick" else 100000
@@ -82,7 +87,144 @@ def gen_cases(rng, tier):
         if ie.ty in G.UNSUPPORTED:
             add(["ie enc %s n0" % ie.tok()], "unsupported", False)
             add(["ie dec %s 0000000000000000" % ie.tok()], "unsupported", False)
+    gen_recbuf(random.Random(rng.getrandbits(64)), tier, add)
     return cases
+
+
+# ---- `ie recbuf`: whole records against the exact model of GetBuffer (Ipfix.recordBuf) ----
+
+NEED_WIDTH = dict(G.WIDTH)
+NEED_WIDTH.update({11: 1, 12: 6, 18: 4, 19: 16})
+
+
+def odd_lengths(w):
+    """declared lengths around the width of a type: 0, shorter, equal, longer, far longer"""
+    return sorted(set(x for x in (0, 1, w - 1, w, w + 1, w + 3, 2 * w, 255, 256, 65534, 65535) if x >= 0))
+
+
+def user_ie(ty, ln, k=0):
+    return G.IE(55555, 1000 + 40 * (ty % 100) + k % 40, ty, ln, "user%dx%d" % (ty, ln))
+
+
+def bad_values(rng, ie):
+    """every kind of value the element's typed constructor takes but the element cannot carry"""
+    ty = ie.ty
+    hx = lambda n: "x" + G.hexs(G.rand_bytes(rng, n))
+    if ty == 12:
+        return [hx(n) for n in (0, 3, 5, 7, 8, 12)]
+    if ty == 18:
+        return [hx(n) for n in (0, 3, 5, 15, 17)] + ["x" + G.hexs(b"\x20" + G.rand_bytes(rng, 15))]
+    if ty == 19:
+        return [hx(n) for n in (0, 3, 6, 15, 17, 32)]
+    if ty == 0 and ie.len < 65535:
+        return [hx(n) for n in sorted(set(x for x in (0, 1, ie.len - 1, ie.len + 1, 2 * ie.len) if x >= 0 and x != ie.len))]
+    return []
+
+
+def any_value(rng, ie):
+    """a value token mkElem accepts for the element: well-typed, or (one in three, where there is one) ill-typed"""
+    bad = bad_values(rng, ie)
+    if bad and rng.random() < 0.34:
+        return rng.choice(bad)
+    return G.well_typed_value(rng, ie, big_ok=False, maxlen=300)
+
+
+def gen_recbuf(rng, tier, add):
+    reg = G.registry_supported()
+    bt = G.by_type()
+    scale = 1 if tier == "quick" else 20
+    small = lambda ie: G.well_typed_value(rng, ie, big_ok=False, maxlen=300)
+    rec = lambda pairs: "ie recbuf " + (",".join("%s=%s" % (ie.tok(), v) for ie, v in pairs) or "-")
+    fixed_octets = [G.IE(55555, 300 + n, 0, n, "fixedOctets%d" % n) for n in (1, 2, 8, 16, 33)]
+    add([rec([])], "recbuf-empty", False)
+    # (1) well-typed records of 1..6 registry elements
+    for n in range(1, 7):
+        for _ in range(250 * scale):
+            ies = [rng.choice(reg) for _ in range(n)]
+            add([rec([(ie, small(ie)) for ie in ies])], "recbuf-well-typed")
+    for _ in range(20 * scale):   # long values: 65535-byte strings / octet arrays next to other elements
+        ies = [rng.choice(reg) for _ in range(rng.randint(1, 4))]
+        add([rec([(ie, G.well_typed_value(rng, ie, big_ok=True, maxlen=70000)) for ie in ies])], "recbuf-well-typed-long")
+    # (2) one ill-typed value at every position of a record of 1..6 elements (last position = not followed)
+    carriers = [bt[12][0], bt[18][0], bt[19][0], rng.choice(bt[12]), rng.choice(bt[18]), rng.choice(bt[19])] + fixed_octets
+    for n in range(1, 7):
+        for pos in range(n):
+            for bad_ie in carriers:
+                for bv in bad_values(rng, bad_ie):
+                    for _ in range(2 * scale):
+                        ies = [rng.choice(reg) for _ in range(n)]
+                        pairs = [(ie, small(ie)) for ie in ies]
+                        pairs[pos] = (bad_ie, bv)
+                        add([rec(pairs)], "recbuf-one-ill-typed")
+    # ... and what the spilled bytes of a long MAC value meet: every supported type right behind it
+    mac = bt[12][0]
+    for ty in G.SUPPORTED:
+        for nxt in ([rng.choice(bt[ty])] if ty in bt else []) + [user_ie(ty, NEED_WIDTH.get(ty, 3) + 2)]:
+            for mlen in (7, 8, 12, 30):
+                for tail in (0, 1):
+                    pairs = [(mac, "x" + G.hexs(G.rand_bytes(rng, mlen))), (nxt, any_value(rng, nxt))]
+                    pairs += [(ie, small(ie)) for ie in (rng.choice(reg) for _ in range(tail))]
+                    add([rec(pairs)], "recbuf-mac-spill")
+    # several ill-typed values in one record (a spill over an element that then fails keeps the spilled bytes)
+    illable = [ie for ie in reg if ie.ty in (12, 18, 19)] + fixed_octets
+    for _ in range(1500 * scale):
+        n = rng.randint(2, 6)
+        ies = [rng.choice(illable) if rng.random() < 0.6 else rng.choice(reg) for _ in range(n)]
+        add([rec([(ie, any_value(rng, ie)) for ie in ies])], "recbuf-many-ill-typed")
+    # (3) user-made elements with odd declared lengths: alone, first, last, in the middle
+    k = 0
+    for ty in sorted(NEED_WIDTH):
+        for ln in odd_lengths(NEED_WIDTH[ty]):
+            ie = user_ie(ty, ln, k)
+            k += 1
+            vals = [small(ie), small(ie)] + bad_values(rng, ie)
+            for v in vals:
+                add([rec([(ie, v)])], "recbuf-odd-length-alone")
+                if ln >= 65534 and rng.random() < 0.5:
+                    continue
+                a, b = rng.choice(reg), rng.choice(reg)
+                add([rec([(ie, v), (b, small(b))])], "recbuf-odd-length-first")
+                add([rec([(a, small(a)), (ie, v)])], "recbuf-odd-length-last")
+                add([rec([(a, small(a)), (ie, v), (b, small(b))])], "recbuf-odd-length-middle")
+    small_odd = [user_ie(ty, ln) for ty in sorted(NEED_WIDTH) for ln in odd_lengths(NEED_WIDTH[ty]) if ln <= 256]
+    for _ in range(1500 * scale):   # records made of odd elements only, and mixed with registry elements
+        n = rng.randint(1, 6)
+        ies = [rng.choice(small_odd) if rng.random() < 0.7 else rng.choice(reg) for _ in range(n)]
+        add([rec([(ie, any_value(rng, ie)) for ie in ies])], "recbuf-odd-length-mixed")
+    # strings with a fixed declared length (the declared length is ignored)
+    for ln in (0, 1, 2, 5, 254, 255, 256, 65534):
+        for vl in (0, 1, ln % 300, 254, 255, 256):
+            ie = user_ie(13, ln)
+            a = rng.choice(reg)
+            add([rec([(ie, "x" + G.hexs(G.rand_bytes(rng, vl)))])], "recbuf-string-fixed-length")
+            add([rec([(a, small(a)), (ie, "x" + G.hexs(G.rand_bytes(rng, vl))), (a, small(a))])], "recbuf-string-fixed-length")
+    # octet arrays: fixed 1/8/16 with every value length around them, variable with lengths 0,254,255,256
+    for ln in (0, 1, 8, 16, 255, 65534):
+        ie = user_ie(0, ln)
+        for vl in sorted(set((0, 1, 7, 8, 9, 15, 16, 17, 254, 255, 256, ln % 1000))):
+            a = rng.choice(reg)
+            add([rec([(ie, "x" + G.hexs(G.rand_bytes(rng, vl)))])], "recbuf-octets-fixed")
+            add([rec([(a, small(a)), (ie, "x" + G.hexs(G.rand_bytes(rng, vl))), (a, small(a))])], "recbuf-octets-fixed")
+    for ie in [user_ie(0, 65535)] + [x for x in bt[0] if x.len == 65535][:2]:
+        for vl in (0, 1, 253, 254, 255, 256, 257, 1000, 65535, 65536, 70000):
+            a = rng.choice(reg)
+            add([rec([(ie, "x" + G.hexs(G.rand_bytes(rng, vl)))])], "recbuf-octets-variable")
+            add([rec([(a, small(a)), (ie, "x" + G.hexs(G.rand_bytes(rng, vl))), (a, small(a))])], "recbuf-octets-variable")
+    for vl in (65536, 70000):   # a string the encoder refuses: its (reported) bytes stay zero
+        ie, a = bt[13][0], rng.choice(reg)
+        add([rec([(a, small(a)), (ie, "x" + G.hexs(G.rand_bytes(rng, vl))), (a, small(a))])], "recbuf-string-too-long")
+    # unsupported types: an error whatever the value, the declared length still counts
+    # (number / boolean carriers only, see the note on `ie recbuf` in eng_ie.go)
+    for ty in G.UNSUPPORTED + [23, 100, 254]:
+        for ln in (0, 1, 7, 8, 9, 65535):
+            ie = user_ie(ty, ln)
+            a = rng.choice(reg)
+            for v in ("n0", "n%d" % rng.getrandbits(64), "t"):
+                add([rec([(a, small(a)), (ie, v), (a, small(a))])], "recbuf-unsupported", False)
+    # tokens the harness' typed constructors refuse: bad-op on both sides
+    for tok in ("0:4:1:1:78=n256", "0:4:1:1:78=x01", "0:4:11:1:78=n1", "0:56:12:6:78=n5", "0:4:1:1:78", "0:4:1:1:78=",
+                "0:70000:1:1:78=n1", "0:4:1:70000:78=n1"):
+        add(["ie recbuf " + tok], "recbuf-bad-token", False)
 
 
 def run(ctx):
